@@ -3,7 +3,7 @@
 
 use super::{PropDef, COMMON_ASSUMPTIONS};
 use crate::adapt::*;
-use crate::engine::{boxed, cr, Info, Sub};
+use crate::engine::{boxed, Info, Sub};
 use crate::recipes::*;
 use pairing_plus::GroupDecodingError;
 use proptest::prelude::*;
@@ -30,6 +30,9 @@ pub enum BaseR {
     /// uniform bytes from a seed
     Uniform(u64),
     Zeros,
+    /// the pair (t^2 x, t^3 y) for a curve point (x, y): an (almost always off-curve) point of the
+    /// isomorphic curve y^2 = x^3 + b t^6 with the same order under the b-independent group formulas
+    Rescaled(PointR, FeR),
 }
 
 #[derive(Clone, Debug, Serialize, Deserialize, PartialEq, Eq, Hash)]
@@ -101,6 +104,7 @@ pub fn base_strategy() -> BoxedStrategy<BaseR> {
         4 => (0u8..POOL_SUB as u8, any::<u16>()).prop_map(|(s, k)| BaseR::Walk(s, k)),
         3 => any::<u64>().prop_map(BaseR::Uniform),
         1 => Just(BaseR::Zeros),
+        3 => (point_strategy(true), fq_uniformish()).prop_map(|(p, t)| BaseR::Rescaled(p, t)),
     ]
     .boxed()
 }
@@ -119,6 +123,24 @@ where
             let c = G::curve();
             Some(c.add(&G::pool().sub[*s as usize % POOL_SUB].1, &c.mul(&Z::from(*k as u32), &G::gen())))
         }
+        BaseR::Rescaled(p, t) => Some(match p.build::<G>() {
+            Pt::Inf => Pt::Inf,
+            Pt::Aff(x, y) => {
+                // embed t (an Fq recipe) into the coordinate field
+                let tv = t.fq();
+                let mut acc = <G::F as refmodel::fld::Fld>::zero();
+                let base = <G::F as refmodel::fld::Fld>::from_u64(1u64 << 32);
+                for d in tv.0.to_u32_digits().iter().rev() {
+                    acc = refmodel::fld::Fld::add(&refmodel::fld::Fld::mul(&acc, &base), &<G::F as refmodel::fld::Fld>::from_u64(*d as u64));
+                }
+                if refmodel::fld::Fld::is_zero(&acc) {
+                    acc = <G::F as refmodel::fld::Fld>::from_u64(2);
+                }
+                let t2 = refmodel::fld::Fld::sqr(&acc);
+                let t3 = refmodel::fld::Fld::mul(&t2, &acc);
+                Pt::Aff(refmodel::fld::Fld::mul(&x, &t2), refmodel::fld::Fld::mul(&y, &t3))
+            }
+        }),
         _ => None,
     }
 }
@@ -312,7 +334,10 @@ pub fn def() -> PropDef {
         id: "C04",
         rule: "byte strings of length 48/96/96/192 for the four formats: valid encodings of every point class (identity, subgroup, full-curve, each small prime order dividing the cofactor, order l*r, walks P+[k]G) and uniform / all-zero bytes, then 0..2 edits (force each of the 8 flag combinations, replace one 48-byte coordinate component by q+k, q-1-k, 2^381, 2^381-1, 0, small, uniform; +-delta; bit flip; x without a square root; x of another point; flip sort flag). Oracle: model decoder returning the accepted point or the first failing stage in the order form flag, infinity/sort flags, coordinate range, curve, subgroup; checked and unchecked variants; no panic. Non-trivial = input passes the form-flag stage; distinct = distinct cases",
         needs_pairing: false,
-        subs: vec![Box::new(Sub { name: "decoders", rule: "four decoders, checked and unchecked, vs model decoder (accepted point or first failing stage)", quick: 8000, thorough: 250_000, strategy: || boxed(dec_case_strategy()), check: check_dec_any })],
+        subs: vec![
+            Box::new(Sub { name: "decoders", rule: "four decoders, checked and unchecked, vs model decoder (accepted point or first failing stage)", quick: 8000, thorough: 250_000, strategy: || boxed(dec_case_strategy()), check: check_dec_any }),
+            super::corpus_sub_decode(),
+        ],
         assumptions: {
             let mut v = COMMON_ASSUMPTIONS.to_vec();
             v.push("the coordinate label inside CoordinateDecodingError is recorded but not asserted (the property does not state it)");
